@@ -68,21 +68,7 @@ def dup_mode_string(labels: List[int]) -> bool:
     return idx == edup and [r.label for r in first] == [labels[i] for i in efirst]
 
 
-def dup_remove_leaves_one_per_class4(labels: List[int]) -> bool:
-    """
-    pre: len(labels) <= 4
-    pre: all(0 <= x <= 3 for x in labels)
-    post: _ == True
-    """
-    return dup_remove_leaves_one_per_class(labels)
-
-
-def dup_remove_leaves_one_per_class(labels: List[int]) -> bool:
-    """
-    pre: len(labels) <= 3
-    pre: all(0 <= x <= 2 for x in labels)
-    post: _ == True
-    """
+def _dup_remove(labels):
     n = _net(labels)
     d, idx, first = n.find_duplicate_reaction()
     n.remove_reaction(idx)
@@ -93,6 +79,24 @@ def dup_remove_leaves_one_per_class(labels: List[int]) -> bool:
         if x not in distinct:
             distinct.append(x)
     return rest == distinct and idx2 == [] and first2 == []
+
+
+def dup_remove_leaves_one_per_class4(labels: List[int]) -> bool:
+    """
+    pre: len(labels) <= 4
+    pre: all(0 <= x <= 3 for x in labels)
+    post: _ == True
+    """
+    return _dup_remove(labels)
+
+
+def dup_remove_leaves_one_per_class(labels: List[int]) -> bool:
+    """
+    pre: len(labels) <= 3
+    pre: all(0 <= x <= 2 for x in labels)
+    post: _ == True
+    """
+    return _dup_remove(labels)
 
 
 def dup_reach(labels: List[int]) -> bool:
